@@ -39,13 +39,21 @@ use std::{
     fmt::Display,
     hash::Hash,
     ops::Deref,
-    sync::{Arc, Weak},
+    sync::{Arc, Mutex, MutexGuard, Weak},
 };
 
 #[cfg(not(gdsl_verif))]
 use std::sync::RwLock;
 #[cfg(gdsl_verif)]
 use crate::verif_hook::RwLock;
+
+/// Serialises the operations that update two nodes (`connect`, `try_connect`,
+/// `disconnect`, `isolate`), so that concurrent callers observe them as atomic.
+static MUTATION: Mutex<()> = Mutex::new(());
+
+fn mutation_guard() -> MutexGuard<'static, ()> {
+    MUTATION.lock().unwrap_or_else(|e| e.into_inner())
+}
 
 use self::{
     adjacent::*,
@@ -263,6 +271,11 @@ where
     /// assert!(n1.is_connected(n2.key()));
     /// ```
     pub fn connect(&self, other: &Self, value: E) {
+        let _guard = mutation_guard();
+        self.connect_unlocked(other, value)
+    }
+
+    fn connect_unlocked(&self, other: &Self, value: E) {
         self.inner
             .2
             .write()
@@ -301,10 +314,11 @@ where
     /// }
     /// ```
     pub fn try_connect(&self, other: &Node<K, N, E>, value: E) -> Result<(), Error> {
+        let _guard = mutation_guard();
         if self.is_connected(other.key()) {
             Err(Error::EdgeAlreadyExists)
         } else {
-            self.connect(other, value);
+            self.connect_unlocked(other, value);
             Ok(())
         }
     }
@@ -332,6 +346,7 @@ where
     /// assert!(!n1.is_connected(n2.key()));
     /// ```
     pub fn disconnect(&self, other: &K) -> Result<E, Error> {
+        let _guard = mutation_guard();
         let node = self.find_adjacent(other).ok_or(Error::EdgeNotFound)?;
         let inbound = self.inner.2.write().unwrap().remove_inbound(other);
         match inbound {
@@ -375,6 +390,7 @@ where
     /// assert!(n1.is_orphan());
     /// ```
     pub fn isolate(&self) {
+        let _guard = mutation_guard();
         for Edge(_, v, _) in self.iter() {
             if v.inner
                 .2
